@@ -10,7 +10,15 @@ field have REPEATED row content (constant, periodic, duplicated, plateau rows: s
 every column, so that a whole dump batch can be equal to the batch before it); there the row read back at
 position j counts as row j only if it is equal to source row j in every column (positional identification).  The Coq model
 recomputes the batch-size sequence, the row order in the file and the loaded rows.
+Schemas: the three fixed kinds (flat / nested / wide) and GENERATED schemas ({'cols': [[name, type], ...]}) with
+exactly ONE column (every primitive type, a single list column, a single nested struct column), two columns, and
+many columns (up to 40); rows of generated schemas carry no id column and are identified by POSITION.
+RE-SUBSCRIPTION (field 'runs' = [k1, k2, ...]): ONE dump pipeline object source.pipe(dump_to_file(...)) over a
+deferred source and ONE load_from_file observable are built once and subscribed once per run (the runs write the
+same path again, or - io open_obj - different files); run r delivers its own k_r rows (also 0 rows) and after
+each run the file must hold exactly the rows of THAT run.  The Coq model recomputes one of the runs (field 'sel').
 Plus: rs.data.batch(n) alone, per-step emissions (kind 'batch')."""
+import json
 import math
 import os
 import random
@@ -21,7 +29,10 @@ from harness.core import c_list, c_nlist, c_N, c_bool, c_opt
 PID = 'C20'
 RULE = ('cases: row count k x dump batch size n x load batch size m x row_group_size x compression '
         '(none/snappy/gzip/zstd) x schema kind (flat ints/strings/floats; nested struct + list columns with nulls; '
-        'wide with non-alphabetical column order) x path | file object | custom open_obj; exhaustive k 0..12 x n 1..6 x '
+        'wide with non-alphabetical column order; GENERATED schemas with exactly 1 column (each of int64/int32/'
+        'uint8/uint16/float64/string/bool/binary/list<int64>/list<string>/struct/struct-with-list/list<struct>, '
+        'exhaustively x k in {0,1,2,n,2n+1}), 2 columns, 3..40 columns of random types, names and order, values '
+        'incl. nulls; such rows are identified by POSITION) x path | file object | custom open_obj; exhaustive k 0..12 x n 1..6 x '
         'm in {1,2,5}; every k in 0..300 (quick) at least once; exact multiples k = j*n forced for every n of '
         '{1,2,3,7,100,1000,1024,2000}; thorough: k sampled up to 5000. Row CONTENT: all rows distinct (default) and, '
         'field pat, REPEATED content spanning >= 2 full dump batches (several source rows equal in every column, so '
@@ -29,7 +40,12 @@ RULE = ('cases: row count k x dump batch size n x load batch size m x row_group_
         '1..4 and period = n / a divisor / a multiple of n, every row duplicated b times, random duplication of '
         'the previous row, a constant plateau inside distinct rows; exhaustive k in {4,6,12,13} x n 1..6 x pattern '
         'plus random k <= 300 (thorough: 2000); such rows are identified by POSITION (row j of the file must equal '
-        'source row j in every column). non-trivial = k > n (at least two batches written); distinct = distinct '
+        'source row j in every column). RE-SUBSCRIPTION (field runs): one source.pipe(dump_to_file(...)) object over '
+        'a deferred source and one load_from_file observable are built ONCE and subscribed 2-3 times, run r with its '
+        'own k_r rows (k_r = 0, < n, = n, multiples of n, > n; empty first / empty later run), to the same path '
+        '(rewritten) or to different files (open_obj); after EACH run the file must hold exactly the rows of that '
+        'run (positional identification); exhaustive k1,k2 in {0,1,n-1,n,n+1,2n,2n+1} x n in {1,2,3,4}. '
+        'non-trivial = k > n (at least two batches written); distinct = distinct '
         'case JSON')
 TRUSTED = ['NOT modelled: pyarrow (RecordBatch.from_arrays, ParquetWriter, compression codecs, ParquetFile.iter_batches, '
            'schemas/encodings). In the Coq model a record batch IS the list of its rows, the file IS the list of record '
@@ -48,8 +64,71 @@ SENTINEL = 10 ** 9
 
 
 # ---------------------------------------------------------------------------------------------
+PRIMS = ['i64', 'i32', 'u8', 'u16', 'f64', 'str', 'bool', 'bin']
+STRUCT_A = ['struct', [['a', 'i32'], ['b', 'str']]]
+STRUCT_B = ['struct', [['sa', 'str'], ['sb', ['list', 'u16']], ['sc', 'f64']]]
+ONE_COLUMN_TYPES = PRIMS + [['list', 'i64'], ['list', 'str'], STRUCT_A, STRUCT_B, ['list', STRUCT_A]]
+NAMES = ['a', 'b', 'c', 'x', 'y', 'z', 'id', 'name', 'value', 'ts', 'k', 'v', 'col', 'n', 'm', 'data', 'Key', 'f1', 'f2', '_t']
+
+
+def pa_type(t):
+    import pyarrow as pa
+    if isinstance(t, str):
+        return {'i64': pa.int64, 'i32': pa.int32, 'u8': pa.uint8, 'u16': pa.uint16, 'f64': pa.float64,
+                'str': pa.string, 'bool': pa.bool_, 'bin': pa.binary}[t]()
+    if t[0] == 'list':
+        return pa.list_(pa_type(t[1]))
+    return pa.struct([(n, pa_type(x)) for n, x in t[1]])
+
+
+def gen_value(t, rng, i, nulls=True):
+    """a value of type t for row i (valid for the type; None now and then)"""
+    if nulls and rng.random() < 0.08:
+        return None
+    if isinstance(t, str):
+        if t == 'i64':
+            return rng.choice([i, -i, i * 3, rng.randrange(-2 ** 63, 2 ** 63)])
+        if t == 'i32':
+            return rng.choice([i, -i, rng.randrange(-2 ** 31, 2 ** 31)])
+        if t == 'u8':
+            return rng.choice([i % 256, rng.randrange(256)])
+        if t == 'u16':
+            return rng.choice([i % 65536, rng.randrange(65536)])
+        if t == 'f64':
+            return rng.choice([0.0, -0.0, 1.5, 1e300, -1e-300, float(i) / 3, i + 0.5, float('inf'), rng.random()])
+        if t == 'str':
+            return rng.choice([rng.choice(STRS), '%02d' % (i % 100), 's%d' % i, rng.choice(STRS) + str(i)])
+        if t == 'bool':
+            return rng.random() < 0.5
+        return rng.choice([b'', bytes([i % 256, 0, 255]), rng.randbytes(rng.randrange(6))])
+    if t[0] == 'list':
+        return [gen_value(t[1], rng, i, nulls) for _ in range(rng.choice([0, 0, 1, 2, 2, 5]))]
+    return {n: gen_value(x, rng, i, nulls) for n, x in t[1]}
+
+
+def gen_schema(rng, ncols=None):
+    """{'cols': [[name, type], ...]}: 1 column (half of the time), 2 columns, or many; random names / order / types"""
+    if ncols is None:
+        ncols = rng.choice([1] * 6 + [2] * 3 + [3, 4, 5, 8, 12, 20, 40])
+    names = rng.sample(NAMES, min(ncols, len(NAMES))) + ['c%d' % j for j in range(len(NAMES), ncols)]
+    return {'cols': [[nm, rng.choice(PRIMS * 3 + ONE_COLUMN_TYPES)] for nm in names]}
+
+
+def is_gen(schema):
+    return isinstance(schema, dict)
+
+
+def schema_label(schema):
+    if not is_gen(schema):
+        return schema
+    n = len(schema['cols'])
+    return 'generated:%s' % ('1-column' if n == 1 else '2-columns' if n == 2 else '3..8-columns' if n <= 8 else '>8-columns')
+
+
 def schema_of(kind):
     import pyarrow as pa
+    if is_gen(kind):
+        return pa.schema([(n, pa_type(t)) for n, t in kind['cols']])
     if kind == 'flat':
         return pa.schema([('id', pa.int64()), ('s', pa.string()), ('f', pa.float64()), ('u', pa.uint8())])
     if kind == 'nested':
@@ -67,6 +146,8 @@ STRS = ['', 'a', 'é', '\U0001f600', 'line\nbreak', 'quote"', 'x' * 40, '\x00']
 def make_rows(kind, k, seed):
     rng = random.Random(seed)
     rows = []
+    if is_gen(kind):
+        return [{n: gen_value(t, rng, i) for n, t in kind['cols']} for i in range(k)]
     for i in range(k):
         f = rng.choice([0.0, -0.0, 1.5, 1e300, -1e-300, float(i) / 3, float('inf'), rng.random()])
         if kind == 'flat':
@@ -113,6 +194,23 @@ def source_rows(case):
     ci = content_index(case)
     base = make_rows(case['schema'], max(ci) + 1 if ci else 0, case['seed'])
     return [copy.deepcopy(base[c]) for c in ci]
+
+
+def run_counts(case):
+    return list(case['runs']) if case.get('runs') else [case['k']]
+
+
+def run_rows(case, r):
+    """rows of run r (re-subscription cases: every run has its own rows; run `sel` is the one the model recomputes)"""
+    if not case.get('runs'):
+        return source_rows(case)
+    c = dict(case)
+    c['k'], c['seed'] = case['runs'][r], case['seed'] + 7919 * r
+    return source_rows(c)
+
+
+def positional(case):
+    return bool(case.get('pat')) or is_gen(case['schema']) or bool(case.get('runs'))
 
 
 def equal_consecutive_batches(case):
@@ -201,6 +299,53 @@ def repeated_content(rng, tier):
     return out
 
 
+def mk_runs(rng, ks, n, **kw):
+    """re-subscription case: run r delivers ks[r] rows through the ONE dump pipeline object"""
+    sel = rng.randrange(len(ks))
+    kw.setdefault('io', rng.choice(['path', 'path', 'open_obj']))
+    if rng.random() < 0.3:
+        kw.setdefault('schema', gen_schema(rng))
+    c = mk(rng, max(ks), n, **kw)
+    c.update({'k': ks[sel], 'runs': list(ks), 'sel': sel})
+    return c
+
+
+def resubscriptions(rng, tier):
+    out = []
+    if tier != 'search':
+        for n in (1, 2, 3, 4):
+            pts = sorted({0, 1, n - 1, n, n + 1, 2 * n, 2 * n + 1})
+            for k1 in pts:
+                for k2 in pts:
+                    out.append(mk_runs(rng, [k1, k2], n, m=rng.choice([1, 2, 5, 1024]), rg=rng.choice([None, None, 2])))
+    for _ in range({'quick': 80, 'thorough': 1500, 'search': 40}[tier]):
+        n = rng.choice([1, 2, 3, 5, 7, 16, 100, 1024])
+        kmax = 300 if tier != 'thorough' else 1500
+        ks = [min(kmax, rng.choice([0, rng.randrange(0, n + 1), n, n * rng.randrange(1, 4), n * rng.randrange(1, 4) + rng.randrange(0, n + 1),
+                                    rng.randrange(0, 40), rng.randrange(0, kmax + 1)])) for _ in range(rng.choice([2, 2, 3]))]
+        out.append(mk_runs(rng, ks, n))
+    return out
+
+
+def generated_schemas(rng, tier):
+    out = []
+    if tier != 'search':
+        # exactly one column, every type
+        for t in ONE_COLUMN_TYPES:
+            for n in (1, 2, 3):
+                for k in sorted({0, 1, 2, n, 2 * n + 1}):
+                    out.append(mk(rng, k, n, rng.choice([1, 2, 5, 1024]), rg=rng.choice([None, None, 2]),
+                                  schema={'cols': [[rng.choice(NAMES), t]]}))
+    for _ in range({'quick': 200, 'thorough': 3000, 'search': 60}[tier]):
+        sch = gen_schema(rng)
+        n = rng.choice([1, 2, 3, 4, 7, 16, 100, 1024])
+        kmax = 300 if len(sch['cols']) <= 8 else 60
+        k = min(kmax, rng.choice([rng.randrange(0, 30), n * rng.randrange(0, 4), n * rng.randrange(0, 4) + rng.randrange(0, n + 1),
+                                  rng.randrange(0, kmax + 1)]))
+        out.append(mk(rng, k, n, schema=sch))
+    return out
+
+
 def generate(rng, tier):
     cases = [
         {'kind': 'pq', 'k': 4, 'n': 2, 'm': 3, 'rg': None, 'comp': 'snappy', 'schema': 'flat', 'io': 'path', 'seed': 1},
@@ -212,7 +357,7 @@ def generate(rng, tier):
             n = rng.choice([1, 2, 3, 4, 5, 7, 10])
             k = rng.choice([rng.randrange(0, 40), n * rng.randrange(0, 6)])
             cases.append(mk(rng, k, n, **({'pat': rng.choice(patterns(rng, k, n))} if rng.random() < 0.4 else {})))
-        return cases
+        return cases + generated_schemas(rng, tier) + resubscriptions(rng, tier)
     # exhaustive small scope
     for k in range(0, 13):
         for n in range(1, 7):
@@ -244,6 +389,10 @@ def generate(rng, tier):
         cases.append(mk(rng, k, n))
     # repeated row content (several source rows equal in every column) over at least two full batches
     cases += repeated_content(rng, tier)
+    # generated schemas: exactly one column (every type), two columns, many columns
+    cases += generated_schemas(rng, tier)
+    # one dump pipeline object / one load observable subscribed once per run
+    cases += resubscriptions(rng, tier)
     # rs.data.batch alone
     for k in range(0, 14):
         for n in range(1, 6):
@@ -266,93 +415,116 @@ def run_impl(case):
     import pyarrow.parquet as pq
     import rxsci.container.parquet as parquet
     os.makedirs(WORKDIR, exist_ok=True)
-    path = os.path.join(WORKDIR, 'case_%d.parquet' % os.getpid())
-    if os.path.exists(path):
-        os.remove(path)
+    ks = run_counts(case)
+    multi = bool(case.get('runs'))
+    base = os.path.join(WORKDIR, 'case_%d' % os.getpid())
+    # io open_obj + several runs: every run is written to a file of its own; otherwise the same path is rewritten
+    paths = [base + ('_%d.parquet' % r if r and case['io'] == 'open_obj' else '.parquet') for r in range(len(ks))]
+    for q in set(paths):
+        if os.path.exists(q):
+            os.remove(q)
     schema = schema_of(case['schema'])
-    rows = source_rows(case)
-    src_canon = [canon(r) for r in rows]
-    pos = bool(case.get('pat'))
-    opened = []
+    rows_by_run = [run_rows(case, r) for r in range(len(ks))]
+    pos = positional(case)
+    opened, current = [], [0]
 
     def my_open(f, mode='rb', **kw):
         opened.append(mode)
-        return open(f, mode)
+        return open(paths[current[0]], mode)
 
-    end = []
+    def source(_=None):
+        return rx.from_([dict(r) for r in rows_by_run[current[0]]])
+
     kw = {}
-    target, fobj = path, None
+    target, fobj = paths[0], None
     if case['io'] == 'fileobj':
-        target = fobj = open(path, 'wb')
+        target = fobj = open(paths[0], 'wb')
     elif case['io'] == 'open_obj':
         kw['open_obj'] = my_open
-    try:
-        rx.from_([dict(r) for r in rows]).pipe(
-            parquet.dump_to_file(target, schema, batch_size=case['n'], row_group_size=case['rg'],
-                                 compression=case['comp'], **kw)
-        ).subscribe(on_next=lambda i: end.append('next'), on_error=lambda e: end.append('error:' + type(e).__name__),
-                    on_completed=lambda: end.append('completed'))
-    finally:
-        if fobj is not None:
-            fobj.close()
-    obs = {'dump_end': end, 'size': os.path.getsize(path) if os.path.exists(path) else None}
-    pf = pq.ParquetFile(path)
-    md = pf.metadata
-    obs['rg_sizes'] = [md.row_group(i).num_rows for i in range(md.num_row_groups)]
-    obs['codec'] = md.row_group(0).column(0).compression if md.num_row_groups else None
-    obs['file_columns'] = pf.schema_arrow.names
-    total = md.num_rows
-    pf.close()
-    # a file with far too many rows is already a violation: look at its first rows only (keeps a defective
-    # tree from making the check slow)
-    cap = 3 * case['k'] + 50
-    if total > cap:
-        first, pf2 = [], pq.ParquetFile(path)
-        for b in pf2.iter_batches(batch_size=cap):
-            first += b.to_pylist()
-            if len(first) >= cap:
-                break
-        pf2.close()
-        file_idx = indices(first[:cap], src_canon, pos)
-    else:
-        file_idx = indices(pq.read_table(path).to_pylist(), src_canon, pos)
-    obs['file_n'] = total
-    obs['file_runs'] = runs(file_idx)
-    got, lend = [], []
-    if total > cap:
-        os.remove(path)
-        obs.update({'load_end': ['not-run: file has %d rows for %d source rows' % (total, case['k'])], 'load_n': 0,
-                    'load_runs': [], 'open_obj_calls': opened})
-        return obs
-    src, fobj = path, None
-    if case['io'] == 'fileobj':
-        src = fobj = open(path, 'rb')
-    try:
-        parquet.load_from_file(src, batch_size=case['m'], **kw).subscribe(
-            on_next=got.append, on_error=lambda e: lend.append('error:' + type(e).__name__),
-            on_completed=lambda: lend.append('completed'))
-    finally:
-        if fobj is not None:
-            fobj.close()
-    load_idx = indices(got, src_canon, pos)
-    obs['load_end'] = lend
-    obs['load_n'] = len(load_idx)
-    obs['load_runs'] = runs(load_idx)
-    obs['open_obj_calls'] = opened
-    os.remove(path)
-    return obs
+    # the dump pipeline object: built ONCE, subscribed once per run
+    dumper = (rx.defer(source) if multi else source()).pipe(
+        parquet.dump_to_file(target, schema, batch_size=case['n'], row_group_size=case['rg'],
+                             compression=case['comp'], **kw))
+    loader, per = None, []
+    for r, k in enumerate(ks):
+        current[0] = r
+        path, end = paths[r], []
+        src_canon = [canon(x) for x in rows_by_run[r]]
+        try:
+            dumper.subscribe(on_next=lambda i: end.append('next'), on_error=lambda e: end.append('error:' + type(e).__name__),
+                             on_completed=lambda: end.append('completed'))
+        finally:
+            if fobj is not None:
+                fobj.close()
+        obs = {'dump_end': end, 'size': os.path.getsize(path) if os.path.exists(path) else None}
+        per.append(obs)
+        pf = pq.ParquetFile(path)
+        md = pf.metadata
+        obs['rg_sizes'] = [md.row_group(i).num_rows for i in range(md.num_row_groups)]
+        obs['codec'] = md.row_group(0).column(0).compression if md.num_row_groups else None
+        obs['file_columns'] = pf.schema_arrow.names
+        total = md.num_rows
+        pf.close()
+        # a file with far too many rows is already a violation: look at its first rows only (keeps a defective
+        # tree from making the check slow)
+        cap = 3 * k + 50
+        if total > cap:
+            first, pf2 = [], pq.ParquetFile(path)
+            for b in pf2.iter_batches(batch_size=cap):
+                first += b.to_pylist()
+                if len(first) >= cap:
+                    break
+            pf2.close()
+            file_idx = indices(first[:cap], src_canon, pos)
+        else:
+            in_file = pq.read_table(path).to_pylist()
+            file_idx = indices(in_file, src_canon, pos)
+            if r and SENTINEL in file_idx:
+                # diagnostic only: how many rows of the file are rows an EARLIER run delivered (and not this run's)
+                mine = set(src_canon)
+                earlier = {c for q in range(r) for c in map(canon, rows_by_run[q])} - mine
+                obs['rows_of_earlier_runs'] = sum(1 for x in in_file if isinstance(x, dict) and canon(x) in earlier)
+        obs['file_n'] = total
+        obs['file_runs'] = runs(file_idx)
+        got, lend = [], []
+        if total > cap:
+            obs.update({'load_end': ['not-run: file has %d rows for %d source rows' % (total, k)], 'load_n': 0,
+                        'load_runs': [], 'open_obj_calls': list(opened)})
+            break
+        src, fobj2 = paths[0], None
+        if case['io'] == 'fileobj':
+            src = fobj2 = open(path, 'rb')
+        try:
+            if loader is None:      # the load observable: built ONCE, subscribed once per run
+                loader = parquet.load_from_file(src, batch_size=case['m'], **kw)
+            loader.subscribe(on_next=got.append, on_error=lambda e: lend.append('error:' + type(e).__name__),
+                             on_completed=lambda: lend.append('completed'))
+        finally:
+            if fobj2 is not None:
+                fobj2.close()
+        load_idx = indices(got, src_canon, pos)
+        obs['load_end'] = lend
+        obs['load_n'] = len(load_idx)
+        obs['load_runs'] = runs(load_idx)
+        obs['open_obj_calls'] = list(opened)
+    for q in set(paths):
+        if os.path.exists(q):
+            os.remove(q)
+    if not multi:
+        return per[0]
+    out = dict(per[min(case.get('sel', 0), len(per) - 1)])      # the run the Coq model recomputes
+    out['runs'] = per
+    return out
 
 
-def oracle(case, obs):
-    """C20 as written, no model: the file holds exactly the source rows once each in order; load returns them."""
-    if case['kind'] != 'pq':
-        return None
-    if 'raised' in obs:
-        return {'sig': 'parquet:raised', 'what': 'raised %s: %s' % (obs['raised'], obs.get('msg'))}
-    k, n = case['k'], case['n']
+def judge(case, k, obs, run=None):
+    n = case['n']
+    at = '' if run is None else '@resub'
+    pre = '' if run is None else 'run %d of %s through ONE dump pipeline object (io %s): ' % (run + 1, case['runs'], case['io'])
     want = [[0, k]] if k else []
     if obs['dump_end'] != ['completed']:
-        return {'sig': 'parquet:dump-end', 'what': 'dump_to_file ended with %s' % obs['dump_end']}
+        return {'sig': 'parquet:dump-end' + at, 'what': pre + 'dump_to_file ended with %s (schema %s, %d rows)'
+                % (obs['dump_end'], schema_label(case['schema']), k)}
     if obs['file_runs'] != want:
         fr = obs['file_runs']
         flat = [i for s, l in fr[:50] for i in range(s, s + l)] if all(s != SENTINEL for s, l in fr[:50]) else []
@@ -364,15 +536,36 @@ def oracle(case, obs):
             sig, why = 'parquet:file-rows-missing', 'source rows are missing from the file (rows equal to earlier rows dropped?)'
         else:
             sig, why = 'parquet:file-rows-differ', 'file rows are not the source rows'
-        return {'sig': sig, 'what': '%s: %d source rows, batch_size %d -> %d rows in the file, runs (start,len) %s, '
-                'row groups %s%s' % (why, k, n, obs['file_n'], fr[:6], obs['rg_sizes'][:8],
-                                     ' row pattern %s' % case['pat'] if case.get('pat') else '')}
+        if obs.get('rows_of_earlier_runs'):
+            why += ' (%d rows of the file are rows an earlier run delivered)' % obs['rows_of_earlier_runs']
+        return {'sig': sig + at, 'what': '%s%s: %d source rows, batch_size %d -> %d rows in the file, runs (start,len) %s, '
+                'row groups %s%s%s' % (pre, why, k, n, obs['file_n'], fr[:6], obs['rg_sizes'][:8],
+                                       ' row pattern %s' % case['pat'] if case.get('pat') else '',
+                                       ' schema %s' % case['schema']['cols'][:3] if is_gen(case['schema']) else '')}
     if obs['load_end'] != ['completed'] or obs['load_runs'] != want:
-        return {'sig': 'parquet:load-differs', 'what': 'load_from_file(batch_size=%d): end %s, runs %s, want %s'
+        return {'sig': 'parquet:load-differs' + at, 'what': pre + 'load_from_file(batch_size=%d): end %s, runs %s, want %s'
                 % (case['m'], obs['load_end'], obs['load_runs'][:6], want)}
     want_codec = {'none': 'UNCOMPRESSED', 'snappy': 'SNAPPY', 'gzip': 'GZIP', 'zstd': 'ZSTD'}[case['comp']]
     if k and obs['codec'] != want_codec:
         return {'sig': 'parquet:codec', 'what': 'file written with %s, asked %s' % (obs['codec'], want_codec)}
+    return None
+
+
+def oracle(case, obs):
+    """C20 as written, no model: the file holds exactly the source rows once each in order; load returns them.
+    Re-subscription cases: after EACH run the file holds exactly the rows of that run."""
+    if case['kind'] != 'pq':
+        return None
+    if 'raised' in obs:
+        return {'sig': 'parquet:raised', 'what': 'raised %s: %s' % (obs['raised'], obs.get('msg'))}
+    if not case.get('runs'):
+        return judge(case, case['k'], obs)
+    for r, o in enumerate(obs['runs']):
+        f = judge(case, case['runs'][r], o, r)
+        if f:
+            return f
+    if len(obs['runs']) != len(case['runs']):
+        return {'sig': 'parquet:runs-missing@resub', 'what': 'only %d of %d runs observed' % (len(obs['runs']), len(case['runs']))}
     return None
 
 
@@ -384,7 +577,10 @@ def describe(cases, obs):
     d = {'pq': 0, 'batch': 0, 'max_rows': 0, 'exact_multiples': 0, 'empty': 0, 'fewer_than_batch': 0,
          'equal_to_batch': 0, 'comp': {}, 'schema': {}, 'io': {}, 'with_row_group_size': 0, 'dump_batch_sizes': {},
          'distinct_row_counts': 0, 'max_batches_written': 0, 'repeated_content': {},
-         'cases_with_a_batch_equal_to_the_previous_batch': 0, 'equal_consecutive_batches': 0}
+         'cases_with_a_batch_equal_to_the_previous_batch': 0, 'equal_consecutive_batches': 0,
+         'one_column_schema_types': {}, 'max_columns': 0, 'resubscription_cases': 0, 'resubscription_runs': 0,
+         'resub_empty_later_run': 0, 'resub_empty_first_run': 0, 'resub_first_run_fills_a_batch': 0,
+         'resub_to_different_files': 0}
     ks = set()
     for c, o in zip(cases, obs):
         d[c['kind']] += 1
@@ -398,7 +594,22 @@ def describe(cases, obs):
         d['fewer_than_batch'] += 1 if 0 < k < n else 0
         d['equal_to_batch'] += 1 if k == n else 0
         for key in ('comp', 'schema', 'io'):
-            d[key][c[key]] = d[key].get(c[key], 0) + 1
+            v = schema_label(c[key]) if key == 'schema' else c[key]
+            d[key][v] = d[key].get(v, 0) + 1
+        if is_gen(c['schema']):
+            cols = c['schema']['cols']
+            d['max_columns'] = max(d['max_columns'], len(cols))
+            if len(cols) == 1:
+                t = cols[0][1] if isinstance(cols[0][1], str) else json.dumps(cols[0][1], separators=(',', ':'))[:40]
+                d['one_column_schema_types'][t] = d['one_column_schema_types'].get(t, 0) + 1
+        if c.get('runs'):
+            r = c['runs']
+            d['resubscription_cases'] += 1
+            d['resubscription_runs'] += len(r)
+            d['resub_empty_later_run'] += 1 if r[0] > 0 and 0 in r[1:] else 0
+            d['resub_empty_first_run'] += 1 if r[0] == 0 and any(r[1:]) else 0
+            d['resub_first_run_fills_a_batch'] += 1 if r[0] >= n else 0
+            d['resub_to_different_files'] += 1 if c['io'] == 'open_obj' else 0
         d['with_row_group_size'] += 1 if c['rg'] else 0
         b = str(n) if n in NS else 'other'
         d['dump_batch_sizes'][b] = d['dump_batch_sizes'].get(b, 0) + 1
@@ -452,6 +663,8 @@ def neighbours(case, rng):
         n = rng.choice([1, 2, 3, 5])
         k = n * rng.randrange(2, 5)
         out.append(mk(rng, k, n, pat=rng.choice(patterns(rng, k, n))))
+    out += [mk(rng, rng.randrange(0, 12), rng.choice([1, 2, 3]), schema=gen_schema(rng)) for _ in range(15)]
+    out += [mk_runs(rng, [rng.randrange(0, 12), rng.randrange(0, 12)], rng.choice([1, 2, 3, 5])) for _ in range(15)]
     return out
 
 
